@@ -40,6 +40,21 @@ def replay_native(spec_path, timeout=300):
         return 3, 'replay timed out'
 
 
+def fix_trig(o):
+    """angles enter the VCs only through their (cos, sin) pair: recover a concrete angle for the replay"""
+    import math
+    from fractions import Fraction
+    m = o.model or {}
+    for leaf, (cn, sn) in (o.meta.get('trig') or {}).items():
+        if cn in m and sn in m and leaf not in m:
+            def f(v):
+                return float(Fraction(int(v['num']), int(v['den']))) if isinstance(v, dict) and 'num' in v else float(v)
+            try:
+                m[leaf] = math.atan2(f(m[sn]), f(m[cn]))
+            except Exception:
+                pass
+
+
 def sha(path):
     return hashlib.sha256(open(path, 'rb').read()).hexdigest()[:16]
 
@@ -127,18 +142,19 @@ def main():
     nrep = 0
     reported = set()
     for o in violations:
-        key = (o.contract, o.case, o.name)
-        if key in reported:
+        key = (o.contract, o.name)
+        if key in reported or len(reported) >= 8:
             continue
         reported.add(key)
         nrep += 1
         fname = re.sub(r'[^A-Za-z0-9_.-]+', '_', f'{prop}-{o.contract}-{o.case}-{o.name}')[:150] + '.json'
         path = os.path.join(VERIF, 'replays', fname)
         case_kwargs = E.case_kwargs(o.entry, o.case)
+        fix_trig(o)
         spec = {'property': prop, 'obligation': o.fullname, 'contract': o.contract, 'module': o.module, 'target': o.target,
                 'case': o.case, 'case_kwargs': case_kwargs, 'clause': o.name, 'model': o.model or {}, 'repo': repo_path(),
                 'solver': {'backend': o.backend, 'status': 'sat (negated obligation satisfiable)', 'time_s': round(o.time, 3)},
-                'note': getattr(o, 'note', None), 'meta': {k: v for k, v in o.meta.items() if k != 'leaves'}}
+                'note': getattr(o, 'note', None), 'meta': {k: v for k, v in o.meta.items() if k in ('exception',)}}
         json.dump(spec, open(path, 'w'), indent=1, default=repr)
         rc, out = replay_native(path)
         spec['native_replay'] = {'exit': rc, 'output': out[-3000:]}
